@@ -34,6 +34,9 @@ func init() {
 	control(Control{ID: "c03-dynamic-xpath-fresh-stack", Prop: "C03", File: "extensions/omniv21/transform/validate.go",
 		Old: "\t\t\tstrs.BuildFQDN(fqdn, \"xpath_dynamic\"), decl.XPathDynamic, templateRefStack)", New: "\t\t\tstrs.BuildFQDN(fqdn, \"xpath_dynamic\"), decl.XPathDynamic, nil)",
 		Rule: "K7", Substr: "validateXPath", Why: "template cycle through xpath_dynamic is not detected: NewSchema never returns"})
+	control(Control{ID: "c03-loop-ignores-source-error", Prop: "C03", File: "extensions/omniv21/fileformat/fixedlength/reader.go",
+		Old: "\t\tswitch err {\n\t\tcase nil:\n\t\t\tr.line++\n\t\tdefault:\n\t\t\treturn nil, err\n\t\t}", New: "\t\tswitch err {\n\t\tcase nil:\n\t\t\tr.line++\n\t\tcase io.EOF:\n\t\t\treturn nil, err\n\t\t}",
+		Rule: "K9", Substr: "readLine", Why: "a persistent read error keeps the line loop spinning"})
 	control(Control{ID: "c15-vm-dirty-after-error", Prop: "C15", File: "extensions/omniv21/customfuncs/javascript.go",
 		Old: "\t\t\tfor arg := range args {\n\t\t\t\t_ = vm.GlobalObject().Delete(arg)\n\t\t\t}", New: "\t\t\t_ = vm.GlobalObject().Delete(argNameNode)",
 		Rule: "R15g", Substr: "execProgram", Why: "script arguments of an earlier transform stay visible in the pooled VM"})
@@ -507,4 +510,121 @@ func c07NoSharedBuffers(c *core.Ctx) {
 		return
 	}
 	poolTypestateIn(c, "R07d", "/fileformat/edi")
+}
+
+// ---------------------------------------------------------------- K9 (C03): loops around a failing source terminate
+
+// c03LoopsExitOnError: in the reader packages, a call of a non-repository function that returns an error and sits on a
+// CFG cycle (a loop that re-invokes it) must not be re-invoked while its error is non-nil: every cycle path from the call
+// back to itself passes the nil edge of a test of that error. Otherwise a source that fails persistently without
+// consuming input (e.g. encoding/csv rejecting its delimiter) keeps the loop spinning: Read never returns.
+func c03LoopsExitOnError(c *core.Ctx) {
+	n := 0
+	for _, f := range c.RepoFunctions() {
+		p := core.FuncPkg(f)
+		if core.IsCLIOrSample(p) || !(strings.Contains(p.Path(), "/fileformat/") || strings.HasSuffix(p.Path(), "/idr")) {
+			continue
+		}
+		for _, ci := range core.Calls(f) {
+			call, ok := ci.(*ssa.Call)
+			if !ok {
+				continue
+			}
+			o := core.CalleeObj(ci)
+			if o == nil || o.Pkg() == nil || core.InRepo(o.Pkg()) {
+				continue
+			}
+			switch o.Pkg().Path() {
+			case "encoding/csv", "encoding/json", "encoding/xml", "bufio", "io", "github.com/jf-tech/go-corelib/ios":
+			default:
+				continue // not an input-consuming source
+			}
+			sig := o.Type().(*types.Signature)
+			if sig.Results().Len() == 0 || !isErrorT(sig.Results().At(sig.Results().Len()-1).Type()) {
+				continue
+			}
+			// on a cycle?
+			src := call.Block()
+			if !blockOnCycle(src) {
+				continue
+			}
+			// the error value
+			var errV ssa.Value
+			if sig.Results().Len() == 1 {
+				errV = call
+			} else {
+				for _, u := range core.Referrers(call) {
+					if ex, ok := u.(*ssa.Extract); ok && ex.Index == sig.Results().Len()-1 {
+						errV = ex
+					}
+				}
+			}
+			n++
+			key := core.FuncKey(f) + " loop around " + core.Rel(o.Pkg().Path()) + "." + core.FuncName(o)
+			if errV == nil {
+				c.Bad("K9", key, core.InstrPos(call), "the error of a source call inside a loop is discarded: a persistently failing source keeps the loop spinning")
+				continue
+			}
+			// DFS over cycle paths from src back to src, never taking a nil edge of errV
+			seen := map[*ssa.BasicBlock]bool{}
+			spin := false
+			var dfs func(b *ssa.BasicBlock)
+			dfs = func(b *ssa.BasicBlock) {
+				if spin {
+					return
+				}
+				var skip *ssa.BasicBlock
+				if ifi, ok := b.Instrs[len(b.Instrs)-1].(*ssa.If); ok {
+					if bo, ok := ifi.Cond.(*ssa.BinOp); ok && (bo.Op == token.EQL || bo.Op == token.NEQ) {
+						isE := (bo.X == errV && core.IsNilConst(bo.Y)) || (bo.Y == errV && core.IsNilConst(bo.X))
+						if isE && bo.Op == token.EQL {
+							skip = b.Succs[0]
+						}
+						if isE && bo.Op == token.NEQ {
+							skip = b.Succs[1]
+						}
+					}
+				}
+				for _, s := range b.Succs {
+					if skip != nil && s == skip && b.Succs[0] != b.Succs[1] {
+						continue
+					}
+					if s == src {
+						spin = true
+						return
+					}
+					if !seen[s] {
+						seen[s] = true
+						dfs(s)
+					}
+				}
+			}
+			dfs(src)
+			c.Check(!spin, "K9", key, core.InstrPos(call), "the loop re-invokes the source only on the nil-error edge",
+				"the loop can re-invoke the source while its error is non-nil (only io.EOF, or nothing, ends it): a source that keeps failing without consuming input makes Read spin forever")
+		}
+	}
+	if n == 0 {
+		c.Unresolved("K9", "source calls in loops", "none found")
+	}
+}
+
+func blockOnCycle(b *ssa.BasicBlock) bool {
+	seen := map[*ssa.BasicBlock]bool{}
+	var walk func(x *ssa.BasicBlock) bool
+	walk = func(x *ssa.BasicBlock) bool {
+		for _, s := range x.Succs {
+			if s == b {
+				return true
+			}
+			if !seen[s] {
+				seen[s] = true
+				if walk(s) {
+					return true
+				}
+			}
+		}
+		return false
+	}
+	return walk(b)
 }
